@@ -9,7 +9,7 @@ OUT=/verif/seeded/$NAME
 TMP=$(mktemp -d /tmp/seedeval.XXXXXX)
 trap 'rm -rf "$TMP"' EXIT
 mkdir -p "$OUT"
-cp "$SRC/out/patch.diff" "$OUT/patch.diff"; cp "$SRC/out/seed_demo.rs" "$OUT/seed_demo.rs"; cp "$SRC/out/meta.json" "$OUT/agent_meta.json"
+if [ -d "$SRC/out" ]; then cp "$SRC/out/patch.diff" "$OUT/patch.diff"; cp "$SRC/out/seed_demo.rs" "$OUT/seed_demo.rs"; cp "$SRC/out/meta.json" "$OUT/agent_meta.json"; fi
 (cd /repo && git archive HEAD | tar -x -C "$TMP" && cp Cargo.lock "$TMP/Cargo.lock")
 cd "$TMP"; git init -q . >/dev/null 2>&1; git add -A >/dev/null 2>&1; git -c user.email=x -c user.name=x commit -qm base >/dev/null 2>&1
 export CARGO_TARGET_DIR=$TMP/target CARGO_NET_OFFLINE=true
@@ -27,7 +27,7 @@ echo "build: $b1 | $b2 | $b3"; echo "suite: $suite"; echo "demo base: $demo_base
 rm -rf tests/seed_demo.rs
 FIRED=""; SILENT=""
 mkdir -p /verif/.work/selftest_out/evidence; cp /verif/known_findings.txt /verif/.work/selftest_out/known_findings.txt
-export VERIF_DIR=/verif/.work/selftest_out
+export VERIF_DIR=/verif/.work/selftest_out/$NAME; mkdir -p $VERIF_DIR/evidence; cp /verif/known_findings.txt $VERIF_DIR/known_findings.txt
 for c in C01 C02 C03 C04 C05 C06 C07 C08 C09 C10 C11 C12 C13 C14 C15 C16 C17 C18 C19 C20; do
   r=$(AIS_REPO=$TMP timeout 900 /verif/bin/check $c ${TIER:-quick} 2>&1)
   if echo "$r" | grep -q "^VIOLATION property=$c"; then k=$(echo "$r" | grep -m1 "key=" | sed 's/^ *key=//' | cut -c1-160); FIRED="$FIRED $c"; echo "  $c FIRED $k"; else SILENT="$SILENT $c"; fi
